@@ -303,6 +303,13 @@ func (g *c15Gen) client(slot, pi, di int) []Action {
 		d := c15Data(r, true)
 		return Action{Kind: "c-data", A: slot, X: d, L: g.cuts(len(d), 0, 0, true)}
 	}
+	if r.Intn(6) == 0 {
+		// a client that stops reading for a while: what the agent returns meanwhile has to wait
+		// for it (however long that takes) and then arrive complete and in order
+		sr := adata()
+		sr.Kind = "slow-reader"
+		s = append(s, sr, adata(), g.checkin(di))
+	}
 	for k := 1 + r.Intn(4); k > 0; k-- {
 		switch r.Intn(3) {
 		case 0:
@@ -787,6 +794,7 @@ func (c15) Exec(p *Plan, dir string) *Result {
 	if len(res.Violations) == 0 && !w.Sim.Exited && !st.stop {
 		w.Sim.SetAction(len(p.Actions))
 		st.par = false
+
 		for k := 0; k < 3 && len(res.Violations) == 0 && !st.stop; k++ {
 			for di := range st.dem {
 				st.inject(Action{Kind: "checkin", B: di})
@@ -910,6 +918,32 @@ func (st *c15State) inject(a Action) {
 		c.state = c15End
 		res.Probe("pipelined-clients")
 		res.FP("pipe")
+	case "slow-reader":
+		// one step as far as the oracles are concerned: the client stops reading, the agent returns
+		// data, the check-in that carries it has to wait (for as long as it takes), the client reads
+		// again
+		c := st.cli[a.A]
+		if c == nil || c.state != c15Connected || !c.agentSock || c.clientClosed || c.closing || c.loose || len(a.X) == 0 || st.par {
+			return
+		}
+		dm := st.dem[c.di]
+		if dm.pending != nil {
+			return
+		}
+		c.conn.Stall(true)
+		for _, chunk := range world.Segments(a.X, a.L) {
+			chunk := append([]byte(nil), chunk...)
+			dm.queue(world.SockReadPkg(0, c.id, world.SockTypeProxy, chunk), func() { c.agentDelivered = append(c.agentDelivered, chunk...) })
+		}
+		st.checkin(dm)
+		w.Sim.Settle()
+		if dm.pending != nil && dm.pending.call.Done {
+			res.Probe("slow-reader-checkin-did-not-wait")
+		} else {
+			res.Probe("slow-reader-checkin-waited")
+		}
+		c.conn.Stall(false)
+		res.Probe("slow-readers")
 	case "c-data":
 		c := st.cli[a.A]
 		if c == nil || c.state != c15Connected || c.clientClosed || len(a.X) == 0 {
